@@ -96,8 +96,18 @@ def run(chk):
     emf, masses, ifmr, kicks = U.mods()
     n = 150 if chk.tier == "quick" else 1500
     exprs, meta = [], []
-    for _ in range(n):
-        kw, defects = mutate(rng)
+    reqs = [mutate(rng) for _ in range(n)]          # (the loop body below draws nothing from the generator)
+    # fixed coverage points, present at every seed: every invalid option value of the families above as the ONLY defect of an otherwise
+    # default request (in a random request a second defect can raise the ValueError on behalf of the first)
+    for key, fam_, vals_ in (("BH_IFMR_method", "bh_method", ["banerjee", "fryer", "", "ba20-delayd", "banerjee20-fast", "nbody7-", "ba20-rapid-delayed", "cosmic-fast",
+                                                            "linear-rapid", "cosmic_rapid", "powerlaw2", "ba20-", "nbody7-Rapid-", "banerjee20-delayed-rapid"]),
+                             ("WD_IFMR_method", "wd_method", ["mist", "kalirai", "mist18-rapid", "mist-2018", "linear-"]),
+                             ("esc_norm", "esc_norm", ["n", "mass", "", "NM"]), ("binning_method", "binning", ["log", "linear", "uniform"]),
+                             ("kick_method", "kick", ["maxwell", "gaussian", "none"]), ("esc_rate", "esc_pos", [1e-9, 1.0, 50.0])):
+        for v_ in vals_:
+            reqs.append((dict(BASE, FeH=-1.0, nbins=[2, 2, 6], esc_rate=0, natal_kicks=(fam_ == "kick"), BH_ret_dyn=0.3, **{key: v_}) if key != "esc_rate"
+                         else dict(BASE, FeH=-1.0, nbins=[2, 2, 6], natal_kicks=False, esc_rate=v_), [fam_]))
+    for kw, defects in reqs:
         case = dict(kw=dict(kw), defects=defects)
         chk.note_distinct(case)
         for d in defects or ["valid"]:
